@@ -9,11 +9,13 @@ PROP = dict(
     level="proof",
     exhaustive=False,
     rule="one evaluation = one call of the real code recomputed by the model: UserDictionaryLoader::load / chewing_new2 over a "
-         "directory holding one legacy file (every value of the two length bytes of a binary record, every single-byte overwrite / "
+         "directory holding one legacy file (every value of the two length bytes of a binary record, records whose stored syllable is "
+         "not a syllable code in either format, every single-byte overwrite / "
          "truncation / random extension of small valid binary and text files, header values across the integer boundaries, "
          "arbitrary bytes); Trie::new on EVERY file of the corrupt-file stream (`walk open`: all single-byte overwrites with 4-8 values "
-         "per byte, truncations, extensions, per-field index rewrites, random index tables, one witness per clause of validate_index, "
-         "the former F16/F17 witnesses, arbitrary bytes — the byte-level model of the der shapes + validate_index must predict "
+         "per byte, truncations, extensions, per-field index rewrites incl. syllable fields set to values that are not syllable codes, "
+         "random index tables, one witness per clause of validate_index, the former F16/F17 witnesses and the F47 ones (a node "
+         "syllable Syllable::try_from rejects), arbitrary bytes — the byte-level model of the der shapes + validate_index must predict "
          "accept/reject and the decoded sections), validate_index alone on every index assembled by the harness (`walk validate`), and "
          "Trie::lookup_* / Trie::entries() over every accepted file, each step in a child process with a 2 s watchdog; the real outcome "
          "class ok/panic/hang is part of the record and the model must predict it (the model's entries() runs with exactly the proved "
@@ -29,7 +31,9 @@ PROP = dict(
     assumptions=[
         "F16 / F17 (an index that is not a parent-before-child tree hung entries() and multiplied lookup's thread set; a zero "
         "syllable at a non-first child position panicked entries()) are repaired in the repository: Trie::new runs validate_index and "
-        "returns Err. The traversal theorems therefore carry the hypothesis `validate t = true` — not an assumption about the file but "
+        "returns Err; since the repair of C13's F47 (Syllable::try_from rejects values that are not syllable codes) validate_index also "
+        "rejects a node record whose syllable try_from rejects, so that the unwrap() in entries() stays unreachable. "
+        "The traversal theorems therefore carry the hypothesis `validate t = true` — not an assumption about the file but "
         "the check the code performs (modelled, in correspondence); validation_needed proves the statements false without it",
         "known finding F39 (dictionary-file form): a hand-made or corrupt dictionary FILE with an entry under the empty key makes "
         "every conversion abort (oracle only: the conversion engine is not part of this model). The tools no longer produce such a "
@@ -51,13 +55,17 @@ MANIFEST = dict(
          "tables with an answer of at most `first` phrases; for EVERY table Trie::new accepts (validate t = true): a lookup's thread set "
          "has at most n members (n = index records; threads are distinct records in ascending order), entries() never panics and "
          "finishes within 16n+2 loop iterations by a strictly decreasing measure (weight = twice the subtree size; the scan of "
-         "validate_index is a breadth-first pass whose frontier argument bounds the root's subtree by n). `trie_file_total`: for ALL "
+         "validate_index is a breadth-first pass whose frontier argument bounds the root's subtree by n; its per-node syllable check "
+         "(since the repair of C13's F47) makes every syllable entries() converts with Syllable::try_from(..).unwrap() a valid code: "
+         "`ValidSyls`, `validate_node_syllables`). A uhash record (binary or text) holding a value that is not a syllable code makes "
+         "the whole load an ordinary InvalidData error (`uhash_invalid_syllable_is_error`; covered by uhash_total). `trie_file_total`: for ALL "
          "byte strings the byte-level model of Trie::new (C11's DER model, then validate_index) returns Err or a Trie on which all of "
-         "the above holds (open_total). `witnesses_rejected` / `unvalidated_*` / `validation_needed`: the former F16/F17 witnesses are "
-         "rejected at open; without the validation they loop for every fuel, multiply threads, panic at both sites. C11's "
+         "the above holds (open_total). `witnesses_rejected` / `unvalidated_*` / `validation_needed`: the former F16/F17 witnesses and "
+         "two tables whose only flaw is a node syllable outside the code space (0x6a07, 0x8208) are rejected at open; without the "
+         "validation they loop for every fuel, multiply threads, panic at both sites / at the unwrap. C11's "
          "`validate_write`: every file TrieBuilder::write produces passes the validation. Tie: the model must predict the real outcome "
          "(accept/reject of Trie::new on every corrupted file; result, panic or hang of every traversal); an independent oracle "
-         "reports any panic, abort, watchdog timeout, result larger than the file, or an accepted index that is not a breadth-first tree.",
+         "reports any panic, abort, watchdog timeout, result larger than the file, or an accepted index that is not a breadth-first tree or has a node syllable that is not a syllable code.",
     note="F14/F15/F39(legacy)/F26, F40 and F16/F17 were repaired by fix: commits and are proved absent in the model of the repaired "
          "code (witnesses kept as theorems about the pre-fix decoder / the unvalidated walk). Still recorded: F39 (dictionary-file "
          "form) — a hand-made or corrupt file (e.g. one written directly through TrieBuilder::insert(&[], ..)) holding an entry under the "
